@@ -1150,8 +1150,23 @@ static void build_expr(WorkList *list, ASTNode *expr, Environment *env) {
                      * the order can be observed.  && and || are sequenced by C itself. */
                     int seq = (op == TOKEN_AND || op == TOKEN_OR) ? 0
                               : seq_begin(list, expr->as.prefix_op.args, 2, NULL, env);
+                    /* A comparison whose operand is itself a comparison ((== (== a b) (== c d))) must
+                     * not become the C chain "a == b == c == d": parenthesise such operands. */
+                    bool cmp_operand[2] = { false, false };
+                    if (!needs_parens) {
+                        for (int ci = 0; ci < 2; ci++) {
+                            ASTNode *ca = expr->as.prefix_op.args[ci];
+                            if (ca && ca->type == AST_PREFIX_OP && ca->as.prefix_op.arg_count == 2) {
+                                TokenType co = ca->as.prefix_op.op;
+                                cmp_operand[ci] = (co == TOKEN_EQ || co == TOKEN_NE || co == TOKEN_LT ||
+                                                   co == TOKEN_LE || co == TOKEN_GT || co == TOKEN_GE);
+                            }
+                        }
+                    }
                     if (needs_parens) emit_literal(list, "(");
+                    if (cmp_operand[0]) emit_literal(list, "(");
                     seq_arg(list, seq, 0, expr->as.prefix_op.args[0], false, env);
+                    if (cmp_operand[0]) emit_literal(list, ")");
                     
                     const char *op_str = NULL;
                     switch (op) {
@@ -1171,7 +1186,9 @@ static void build_expr(WorkList *list, ASTNode *expr, Environment *env) {
                         default: op_str = " OP "; break;
                     }
                     emit_literal(list, op_str);
+                    if (cmp_operand[1]) emit_literal(list, "(");
                     seq_arg(list, seq, 1, expr->as.prefix_op.args[1], false, env);
+                    if (cmp_operand[1]) emit_literal(list, ")");
                     if (needs_parens) emit_literal(list, ")");
                     seq_end(list, seq);
                 }
